@@ -53,7 +53,7 @@ def ann_type(a):
     s = ast.unparse(a).replace(' ', '')
     table = {'Pattern': 'pat', 'ConjForm': 'cf', 'ProofThunk': 'proof', 'ProofThunk|None': 'proof', 'int': 'int',
              'bool': 'bool', 'Clause': 'clause', 'ClauseConjunction': 'clauses', 'frozenset[int]': 'fset',
-             'list[frozenset[int]]': 'fsetlist', 'ResolutionHint': 'hint', 'None': 'none'}
+             'list[frozenset[int]]': 'fsetlist', 'ResolutionHint': 'hint', 'None': 'none', 'ResolutionHintSource': 'hsrc'}
     if s in table:
         return table[s]
     if s.endswith('|None'):
@@ -103,6 +103,8 @@ class V:
 
     def __init__(self, ty, code, parts=None):
         self.ty, self.code, self.parts = ty, code, parts
+        self.mapf = None
+        self.ctor = None        # (constructor, [argument values]) for constructor applications
 
 
 # ------------------------------------------------------------------------------------------------------------------
@@ -140,6 +142,9 @@ class Translator:
                                 self.sig[f.name] = ann_type(f.returns)
                             except Fail:
                                 self.sig[f.name] = 'unknown'
+        self.raw_methods = dict(self.methods)
+        for m in TRANSLATED:
+            self.methods[m] = self.desugar(self.methods[m])
         # which translated methods need fuel: recursive, loops, or calling one that does
         self.mutated = {m: self.mutated_params(self.methods[m]) for m in TRANSLATED}
         self.fuel = {}
@@ -492,7 +497,9 @@ class Translator:
             lt = {'fset': 'fsetlist', 'clause': 'clauses', 'int': 'clause'}.get(body.ty)
             if lt is None:
                 fail(e, 'list comprehension element type')
-            return V(lt, f'(map (fun {cname(x)} => {body.code}) {it.code})')
+            r = V(lt, f'(map (fun {cname(x)} => {body.code}) {it.code})')
+            r.mapf = (cname(x), body, it)          # a loop over this list is a loop over `it` with the element mapped
+            return r
         if isinstance(e, ast.IfExp):
             # canonical form shared with the if/else statement that assigns one variable in both branches
             c = self.truthy(self.cexpr(e.test, cx), e)
@@ -502,7 +509,7 @@ class Translator:
                     a, b = V('int', self.as_int(a, e)), V('int', self.as_int(b, e))
                 else:
                     fail(e, f'conditional expression of types {a.ty} / {b.ty}')
-            return V(a.ty, f'(if {c} then {a.code} else {b.code})')
+            return self.mk_if(c, a, b)
         if isinstance(e, ast.Attribute):
             return self.cattr(e, cx)
         if isinstance(e, ast.Subscript):
@@ -510,6 +517,20 @@ class Translator:
         if isinstance(e, ast.Call):
             return self.ccall(e, cx)
         fail(e, 'expression form')
+
+    def mk_if(self, c, a, b):
+        """`if c then a else b`; a conditional between two applications of the same constructor is pushed into the
+        arguments (K a1 a2 | K b1 b2  ->  K (if c then a1 else b1) (if c then a2 else b2)): one canonical form whether the
+        source selects the arguments first and builds the object once, or builds it in both branches"""
+        if a.code == b.code:
+            return a
+        if a.ctor is not None and b.ctor is not None and a.ctor[0] == b.ctor[0] and len(a.ctor[1]) == len(b.ctor[1]) \
+                and all(x.ty == y.ty for x, y in zip(a.ctor[1], b.ctor[1])):
+            args = [self.mk_if(c, x, y) for x, y in zip(a.ctor[1], b.ctor[1])]
+            r = V(a.ty, '(' + a.ctor[0] + ''.join(' ' + x.code for x in args) + ')')
+            r.ctor = (a.ctor[0], args)
+            return r
+        return V(a.ty, f'(if {c} then {a.code} else {b.code})')
 
     def truthy(self, v, node):
         if v.ty == 'bool':
@@ -643,6 +664,8 @@ class Translator:
                 v = self.cexpr(a, cx)
                 if v.ty in ('fset', 'clause'):
                     return V('clause', v.code)
+                if v.ty == 'hint':
+                    return V('fsetlist', f'(map fst {v.code})')       # iterating a dict = its keys
                 fail(e, f'list(...) of {v.ty}')
             if n == 'neg' and len(args) == 1:
                 v = self.cexpr(args[0], cx)
@@ -661,7 +684,9 @@ class Translator:
             if n == 'ResolutionHintSource' and len(args) == 3:
                 vs = [self.cexpr(a, cx) for a in args]
                 if vs[0].ty == vs[1].ty == 'fset' and vs[2].ty == 'int':
-                    return V('hsrc', f'(HRes {vs[0].code} {vs[1].code} {vs[2].code})')
+                    r = V('hsrc', f'(HRes {vs[0].code} {vs[1].code} {vs[2].code})')
+                    r.ctor = ('HRes', vs)
+                    return r
                 fail(e, 'ResolutionHintSource arguments')
             fail(e, f'call of {n}')
         if isinstance(f, ast.Attribute):
@@ -677,8 +702,44 @@ class Translator:
             fail(e, f'method call .{f.attr} on {recv.ty}')
         fail(e, 'call form')
 
+    def helper_expr(self, stmts, node):
+        """a helper whose body is only `if c: return e` ... `return e` is the conditional expression it computes"""
+        stmts = [x for x in stmts if not (isinstance(x, ast.Expr) and isinstance(x.value, ast.Constant))]
+        if not stmts:
+            fail(node, 'helper can fall off its end')
+        st = stmts[0]
+        if isinstance(st, ast.Return) and st.value is not None:
+            return st.value
+        if isinstance(st, ast.If):
+            a = self.helper_expr(st.body, node)
+            b = self.helper_expr(list(st.orelse) + stmts[1:], node)
+            return ast.copy_location(ast.IfExp(test=st.test, body=a, orelse=b), st)
+        fail(st, 'helper body is not of the form if/return')
+
     def cselfcall(self, e, cx):
         m = e.func.attr
+        if m not in TRANSLATED and self.verdict_helper(e) == m:
+            # pure expression helper (possibly a staticmethod): inlined with the parameters bound to the arguments
+            hf = self.methods[m]
+            params = self.helper_params(m)
+            if len(params) != len(e.args) or e.keywords:
+                fail(e, f'call of helper {m}: positional arguments expected')
+            body = self.helper_expr(hf.body, e)
+            sub = cx.same()
+            sub.env = {}
+            for p_, a_ in zip(params, e.args):
+                v = self.cexpr(a_, cx)
+                want = ann_type(p_.annotation) if p_.annotation is not None else v.ty
+                if want != v.ty:
+                    fail(e, f'argument {p_.arg} of helper {m}: expected {want}, got {v.ty}')
+                sub.env[p_.arg] = v
+            sub.pending = cx.pending
+            sub.facts = set()
+            r = self.cexpr(body, sub)
+            want = project(self.sig[m])
+            if r.ty != want:
+                fail(e, f'helper {m} returns {r.ty}, annotated {want}')
+            return r
         if m not in TRANSLATED:
             fail(e, f'call of untranslated method {m} in a verdict position')
         f = self.methods[m]
@@ -937,7 +998,7 @@ class Translator:
             want = ann_type(s.annotation)
             if want != v.ty and not (want == 'pat' and v.ty == 'pat'):
                 fail(s, f'annotation {want} does not fit {v.ty}')
-        cx.env[name] = V(v.ty, v.code, v.parts)
+        cx.env[name] = v
         if full is not None:
             cx.fulltypes[name] = full
         return self.wrap(cx, self.cblock(rest, cx.same()))
@@ -965,6 +1026,32 @@ class Translator:
             return self.cblock(body if terminated else body + rest, sub)
 
         # isinstance tests
+        if isinstance(t, ast.Call) and isinstance(t.func, ast.Name) and t.func.id == 'isinstance' and not getattr(s, '_sorted', False):
+            # an if/elif chain of isinstance tests of ONE object against DISJOINT ConjForm classes: the order of the arms is
+            # irrelevant (the tests are pure and mutually exclusive), so the arms are put into a fixed class order
+            order = ['CFBot', 'CFVar', 'CFAnd', 'CFOr']
+            key0 = ast.unparse(t.args[0])
+            chain, cur = [], s
+            while isinstance(cur, ast.If) and isinstance(cur.test, ast.Call) and isinstance(cur.test.func, ast.Name) \
+                    and cur.test.func.id == 'isinstance' and len(cur.test.args) == 2 and isinstance(cur.test.args[1], ast.Name) \
+                    and cur.test.args[1].id in order and ast.unparse(cur.test.args[0]) == key0 \
+                    and cur.test.args[1].id not in [c_ for c_, _, _ in chain]:
+                chain.append((cur.test.args[1].id, cur.test, cur.body))
+                if len(cur.orelse) == 1 and isinstance(cur.orelse[0], ast.If):
+                    cur = cur.orelse[0]
+                else:
+                    cur = list(cur.orelse)
+                    break
+            final = cur if isinstance(cur, list) else [cur]
+            if len(chain) > 1:
+                chain.sort(key=lambda x: order.index(x[0]))
+                node = None
+                for cls_, test_, body_ in reversed(chain):
+                    n_ = ast.If(test=test_, body=body_, orelse=(final if node is None else [node]))
+                    ast.copy_location(n_, s)
+                    n_._sorted = True
+                    node = n_
+                return self.cif(node, rest, cx)
         if isinstance(t, ast.Call) and isinstance(t.func, ast.Name) and t.func.id == 'isinstance':
             obj, cls = t.args
             if not isinstance(cls, ast.Name):
@@ -1000,15 +1087,13 @@ class Translator:
             # Implies.extract raises (assert) when the pattern is not an implication: the else branch is unreachable
             return self.wrap(cx, f'match {v.code} with\n| KImp {n0} {n1} =>\n{th}\n| _ => Err\nend')
         if isinstance(t, ast.UnaryOp) and isinstance(t.op, ast.Not):
-            inner_v = self.cexpr(t.operand, cx.same())
-            if inner_v.ty == 'bool' and not (not s.orelse and not then_term):
-                swapped = ast.If(test=t.operand, body=(s.orelse if s.orelse else ([ast.Pass()] if then_term else [])),
-                                 orelse=s.body)
+            probe = cx.same()
+            probe.pending = []
+            inner_v = self.cexpr(t.operand, probe)
+            if inner_v.ty == 'bool':
+                # `if not c: A else: B`  ==  `if c: B else: A`  (also guard clauses: B empty and A returning / continuing)
+                swapped = ast.If(test=t.operand, body=list(s.orelse), orelse=list(s.body))
                 ast.copy_location(swapped, s)
-                if not s.orelse and then_term:
-                    # guard clause: `if not c: <returns>` ; rest   ==   if c: rest else: <returns>
-                    swapped.body = rest
-                    return self.cif(swapped, [], cx)
                 return self.cif(swapped, rest, cx)
         c = self.cexpr(t, cx)
         tt = self.truthy(c, t)
@@ -1051,10 +1136,12 @@ class Translator:
                         va, vb = V('int', self.as_int(va, s)), V('int', self.as_int(vb, s))
                     else:
                         fail(s, f'branches assign different types to {n}')
-                cx.env[n] = va if va.code == vb.code else V(va.ty, f'(if {tt} then {va.code} else {vb.code})')
+                cx.env[n] = self.mk_if(tt, va, vb)
             return self.wrap(cx, self.cblock(rest, cx.same()))
         th = branch(s.body, cx.same(), then_term)
         el = branch(s.orelse, cx.same(), else_term)
+        if th == el:
+            return self.wrap(cx, th)              # both branches are the same term and the test is pure
         return self.wrap(cx, f'if {tt} then\n{th}\nelse\n{el}')
 
     def pure_assigns(self, body, cx):
@@ -1235,48 +1322,247 @@ class Translator:
         return out
 
     # ---- methods -----------------------------------------------------------------------------------------------------------
-    def desugar(self, f):
-        """`x: T = {k: v for tgt in it if c}`  ==  `x: T = {}` ; `for tgt in it: if c: x[k] = v`"""
-        class D(ast.NodeTransformer):
-            def visit_stmts(d, stmts):
-                out = []
-                for st in stmts:
-                    val = getattr(st, 'value', None)
-                    if isinstance(st, (ast.Assign, ast.AnnAssign)) and isinstance(val, ast.DictComp):
-                        tg = st.targets[0] if isinstance(st, ast.Assign) else st.target
-                        if not isinstance(tg, ast.Name) or len(val.generators) != 1 or val.generators[0].is_async:
-                            fail(st, 'dict comprehension shape')
-                        g = val.generators[0]
-                        init = ast.AnnAssign(target=ast.Name(id=tg.id, ctx=ast.Store()),
-                                             annotation=(st.annotation if isinstance(st, ast.AnnAssign) else ast.Name(id='ResolutionHint', ctx=ast.Load())),
-                                             value=ast.Dict(keys=[], values=[]), simple=1)
-                        store = ast.Assign(targets=[ast.Subscript(value=ast.Name(id=tg.id, ctx=ast.Load()), slice=val.key, ctx=ast.Store())],
-                                           value=val.value)
-                        body = [store]
-                        if g.ifs:
-                            test = g.ifs[0] if len(g.ifs) == 1 else ast.BoolOp(op=ast.And(), values=list(g.ifs))
-                            body = [ast.If(test=test, body=[store], orelse=[])]
-                        loop = ast.For(target=g.target, iter=g.iter, body=body, orelse=[])
-                        for n in (init, loop):
+    # ---- AST canonicalisation (before classification and compilation) ---------------------------------------------------
+    def helper_params(self, h):
+        f = self.methods[h]
+        static = any(isinstance(d, ast.Name) and d.id == 'staticmethod' for d in f.decorator_list)
+        args = list(f.args.args)
+        if not static:
+            args = args[1:]
+        if f.args.vararg or f.args.kwarg or f.args.kwonlyargs or f.args.defaults:
+            fail(f, f'helper {h}: only plain positional parameters are supported')
+        return args
+
+    def verdict_helper(self, e):
+        """name of the helper if `e` is `self.h(...)` with h an untranslated method of Tautology returning verdict data"""
+        if isinstance(e, ast.Call) and isinstance(e.func, ast.Attribute) and isinstance(e.func.value, ast.Name) \
+                and e.func.value.id == 'self' and e.func.attr in self.methods and e.func.attr not in TRANSLATED \
+                and e.func.attr not in PROOF_RECONSTRUCTION:
+            t = self.sig.get(e.func.attr)
+            if t is not None and t != 'unknown' and project(t) != 'proof':
+                return e.func.attr
+        return None
+
+    def desugar(self, f, depth=0):
+        """behaviour-preserving rewrites to a canonical statement form:
+           * `x = self.h(a..)` with h a single-exit helper method returning verdict data  ==  h's body inlined
+             (parameters and locals renamed apart, the final `return e` becomes `x = e`);
+           * `x: T = {k: v for tgt in it if c}`  ==  `x: T = {}` ; `for tgt in it: if c: x[k] = v`;
+           * `i = 0` ; `while i < len(l): x = l[i]; i += 1; BODY`  ==  `for x in l: BODY`   (i not used elsewhere; a Python
+             list iterator IS this index loop, so a list that grows while it is traversed behaves identically);
+           * `ys = [e(x) for x in xs]` ; ... `for .. in [enumerate(]ys[)]: BODY`  ==  the loop over xs with `y = e(x)` first
+             (ys used nowhere else, xs not modified)"""
+        if depth > 8:
+            fail(f, 'helper inlining too deep')
+        tr = self
+
+        def rename(node, mapping):
+            class R(ast.NodeTransformer):
+                def visit_Name(r, n):
+                    if n.id in mapping:
+                        return ast.copy_location(ast.Name(id=mapping[n.id], ctx=n.ctx), n)
+                    return n
+            return R().visit(node)
+
+        def stored_names(stmts):
+            out = []
+            for st in stmts:
+                for n in ast.walk(st):
+                    if isinstance(n, ast.Name) and isinstance(n.ctx, ast.Store) and n.id not in out:
+                        out.append(n.id)
+            return out
+
+        def loads(node_list, name):
+            return sum(1 for st in node_list for n in ast.walk(st)
+                       if isinstance(n, ast.Name) and n.id == name and isinstance(n.ctx, ast.Load))
+
+        def stores(node_list, name):
+            c = 0
+            for st in node_list:
+                for n in ast.walk(st):
+                    if isinstance(n, ast.Name) and n.id == name and isinstance(n.ctx, ast.Store):
+                        c += 1
+                    if isinstance(n, ast.Call) and isinstance(n.func, ast.Attribute) and isinstance(n.func.value, ast.Name) \
+                            and n.func.value.id == name and n.func.attr in ('append', 'extend', 'insert', 'pop', 'remove', 'clear', 'sort'):
+                        c += 1
+                    if isinstance(n, (ast.Assign, ast.AugAssign)):
+                        tgs = n.targets if isinstance(n, ast.Assign) else [n.target]
+                        for t in tgs:
+                            if isinstance(t, ast.Subscript) and isinstance(t.value, ast.Name) and t.value.id == name:
+                                c += 1
+            return c
+
+        import copy
+
+        def inline_helpers(stmts):
+            out = []
+            for st in stmts:
+                val = getattr(st, 'value', None) if isinstance(st, (ast.Assign, ast.AnnAssign)) else None
+                h = tr.verdict_helper(val) if val is not None else None
+                tg = None
+                if h is not None:
+                    tg = st.targets[0] if isinstance(st, ast.Assign) else st.target
+                if h is not None and isinstance(tg, ast.Name):
+                    hf = copy.deepcopy(tr.methods[h])
+                    body = [x for x in hf.body if not (isinstance(x, ast.Expr) and isinstance(x.value, ast.Constant))]
+                    rets = [n for x in body for n in ast.walk(x) if isinstance(n, ast.Return)]
+                    if body and isinstance(body[-1], ast.Return) and len(rets) == 1 and body[-1].value is not None \
+                            and h not in tr.self_calls(hf):
+                        params = tr.helper_params(h)
+                        if len(params) != len(val.args) or val.keywords:
+                            fail(st, f'call of helper {h}: positional arguments expected')
+                        names = [p.arg for p in params] + stored_names(body)
+                        mapping = {n: f'{n}__{h}' for n in names}
+                        pre = []
+                        for p_, a_ in zip(params, val.args):
+                            asg = ast.AnnAssign(target=ast.Name(id=mapping[p_.arg], ctx=ast.Store()), annotation=p_.annotation,
+                                                value=a_, simple=1) if p_.annotation is not None else \
+                                ast.Assign(targets=[ast.Name(id=mapping[p_.arg], ctx=ast.Store())], value=a_)
+                            pre.append(asg)
+                        inl = [rename(x, mapping) for x in body[:-1]]
+                        fin = ast.Assign(targets=[ast.Name(id=tg.id, ctx=ast.Store())], value=rename(body[-1].value, mapping))
+                        new = pre + inl + [fin]
+                        for n in new:
                             ast.copy_location(n, st)
                             ast.fix_missing_locations(n)
-                        out += [init, loop]
-                    else:
-                        out.append(d.visit(st))
-                return out
+                        out += inline_helpers(new)
+                        continue
+                out.append(st)
+            return out
 
-            def generic_visit(d, node):
-                for fld, val in ast.iter_fields(node):
-                    if isinstance(val, list) and val and isinstance(val[0], ast.stmt):
-                        setattr(node, fld, d.visit_stmts(val))
-                    elif isinstance(val, ast.AST):
-                        d.visit(val)
-                return node
-        D().visit(f)
+        def dictcomp(stmts):
+            out = []
+            for st in stmts:
+                val = getattr(st, 'value', None)
+                if isinstance(st, (ast.Assign, ast.AnnAssign)) and isinstance(val, ast.DictComp):
+                    tg = st.targets[0] if isinstance(st, ast.Assign) else st.target
+                    if not isinstance(tg, ast.Name) or len(val.generators) != 1 or val.generators[0].is_async:
+                        fail(st, 'dict comprehension shape')
+                    g = val.generators[0]
+                    init = ast.AnnAssign(target=ast.Name(id=tg.id, ctx=ast.Store()),
+                                         annotation=(st.annotation if isinstance(st, ast.AnnAssign) else ast.Name(id='ResolutionHint', ctx=ast.Load())),
+                                         value=ast.Dict(keys=[], values=[]), simple=1)
+                    store = ast.Assign(targets=[ast.Subscript(value=ast.Name(id=tg.id, ctx=ast.Load()), slice=val.key, ctx=ast.Store())],
+                                       value=val.value)
+                    body = [store]
+                    if g.ifs:
+                        test = g.ifs[0] if len(g.ifs) == 1 else ast.BoolOp(op=ast.And(), values=list(g.ifs))
+                        body = [ast.If(test=test, body=[store], orelse=[])]
+                    loop = ast.For(target=g.target, iter=g.iter, body=body, orelse=[])
+                    for n in (init, loop):
+                        ast.copy_location(n, st)
+                        ast.fix_missing_locations(n)
+                    out += [init, loop]
+                else:
+                    out.append(st)
+            return out
+
+        def while_index(stmts, whole):
+            out = []
+            k = 0
+            while k < len(stmts):
+                st = stmts[k]
+                nxt = stmts[k + 1] if k + 1 < len(stmts) else None
+                if isinstance(st, ast.Assign) and len(st.targets) == 1 and isinstance(st.targets[0], ast.Name) \
+                        and isinstance(st.value, ast.Constant) and st.value.value == 0 and type(st.value.value) is int \
+                        and isinstance(nxt, ast.While) and not nxt.orelse:
+                    i = st.targets[0].id
+                    t = nxt.test
+                    ok = (isinstance(t, ast.Compare) and len(t.ops) == 1 and isinstance(t.ops[0], ast.Lt)
+                          and isinstance(t.left, ast.Name) and t.left.id == i
+                          and isinstance(t.comparators[0], ast.Call) and isinstance(t.comparators[0].func, ast.Name)
+                          and t.comparators[0].func.id == 'len' and len(t.comparators[0].args) == 1
+                          and isinstance(t.comparators[0].args[0], ast.Name))
+                    if ok and len(nxt.body) >= 2:
+                        lname = t.comparators[0].args[0].id
+                        b0, b1 = nxt.body[0], nxt.body[1]
+                        ok = (isinstance(b0, ast.Assign) and len(b0.targets) == 1 and isinstance(b0.targets[0], ast.Name)
+                              and isinstance(b0.value, ast.Subscript) and isinstance(b0.value.value, ast.Name)
+                              and b0.value.value.id == lname and isinstance(b0.value.slice, ast.Name) and b0.value.slice.id == i
+                              and isinstance(b1, ast.AugAssign) and isinstance(b1.op, ast.Add) and isinstance(b1.target, ast.Name)
+                              and b1.target.id == i and isinstance(b1.value, ast.Constant) and b1.value.value == 1)
+                        rest_body = nxt.body[2:]
+                        # the index variable must not be used anywhere else in the function
+                        uses = sum(1 for n in ast.walk(whole) if isinstance(n, ast.Name) and n.id == i)
+                        if ok and uses == 4 and loads(rest_body, i) == 0:
+                            loop = ast.For(target=ast.Name(id=b0.targets[0].id, ctx=ast.Store()),
+                                           iter=ast.Name(id=lname, ctx=ast.Load()), body=rest_body, orelse=[])
+                            ast.copy_location(loop, nxt)
+                            ast.fix_missing_locations(loop)
+                            out.append(loop)
+                            k += 2
+                            continue
+                out.append(st)
+                k += 1
+            return out
+
+        def fuse_listcomp(stmts, whole):
+            out = list(stmts)
+            k = 0
+            while k < len(out):
+                st = out[k]
+                if isinstance(st, ast.Assign) and len(st.targets) == 1 and isinstance(st.targets[0], ast.Name) \
+                        and isinstance(st.value, ast.ListComp) and len(st.value.generators) == 1:
+                    g = st.value.generators[0]
+                    ys = st.targets[0].id
+                    if not g.ifs and isinstance(g.target, ast.Name) and isinstance(g.iter, ast.Name):
+                        xs = g.iter.id
+                        for j in range(k + 1, len(out)):
+                            lp = out[j]
+                            if not isinstance(lp, ast.For):
+                                continue
+                            it = lp.iter
+                            enum = isinstance(it, ast.Call) and isinstance(it.func, ast.Name) and it.func.id == 'enumerate' \
+                                and len(it.args) == 1 and isinstance(it.args[0], ast.Name) and it.args[0].id == ys
+                            plain = isinstance(it, ast.Name) and it.id == ys
+                            if not (enum or plain):
+                                continue
+                            total = sum(1 for n in ast.walk(whole) if isinstance(n, ast.Name) and n.id == ys)
+                            if total != 2 or stores(out[k + 1:j + 1], xs) != 0:
+                                break
+                            elem_t = lp.target.elts[1] if enum else lp.target
+                            if not isinstance(elem_t, ast.Name) or (enum and not (isinstance(lp.target, ast.Tuple) and len(lp.target.elts) == 2)):
+                                break
+                            src = elem_t.id + '__src'
+                            first = ast.Assign(targets=[ast.Name(id=elem_t.id, ctx=ast.Store())],
+                                               value=rename(copy.deepcopy(st.value.elt), {g.target.id: src}))
+                            new_t = ast.Tuple(elts=[lp.target.elts[0], ast.Name(id=src, ctx=ast.Store())], ctx=ast.Store()) if enum \
+                                else ast.Name(id=src, ctx=ast.Store())
+                            new_it = ast.Call(func=ast.Name(id='enumerate', ctx=ast.Load()), args=[ast.Name(id=xs, ctx=ast.Load())], keywords=[]) \
+                                if enum else ast.Name(id=xs, ctx=ast.Load())
+                            loop = ast.For(target=new_t, iter=new_it, body=[first] + lp.body, orelse=[])
+                            for n in (first, loop):
+                                ast.copy_location(n, lp)
+                                ast.fix_missing_locations(n)
+                            out[j] = loop
+                            del out[k]
+                            k -= 1
+                            break
+                k += 1
+            return out
+
+        def walk_lists(node, fn):
+            for fld, val in ast.iter_fields(node):
+                if isinstance(val, list) and val and isinstance(val[0], ast.stmt):
+                    for x in val:
+                        walk_lists(x, fn)
+                    setattr(node, fld, fn(getattr(node, fld)))
+                elif isinstance(val, list):
+                    for x in val:
+                        if isinstance(x, ast.AST):
+                            walk_lists(x, fn)
+                elif isinstance(val, ast.AST):
+                    walk_lists(val, fn)
+
+        f = copy.deepcopy(f)
+        walk_lists(f, inline_helpers)
+        walk_lists(f, dictcomp)
+        walk_lists(f, lambda st: while_index(st, f))
+        walk_lists(f, lambda st: fuse_listcomp(st, f))
         return f
 
     def method(self, m):
-        f = self.desugar(self.methods[m])
+        f = self.methods[m]
         proofvars, dropped = self.classify(f)
         env = {}
         params = []
